@@ -294,6 +294,11 @@ func genC15(r *hx.R, tier string, _ string) (*hx.Suite, error) {
 		if r.Chance(0.1) {
 			pm["cdi.k8s.io/empty"] = ""
 		}
+		if r.Chance(0.25) {
+			// white space around an otherwise well-formed value, or around one of its names: not a qualified name
+			v := "vendor.com/class=dev0,vendor.com/class=dev1"
+			pm["cdi.k8s.io/ws_"+randPart(r, true)] = hx.Pick(r, []string{" " + v, v + " ", v + "\n", "\t" + v, strings.Replace(v, ",", ", ", 1), strings.Replace(v, ",", " ,", 1), " ", "\n", v + "\r\n"})
+		}
 		if r.Chance(0.1) {
 			pm["cdi.k8s.io"] = "unqualified"
 			pm["CDI.K8S.IO/x"] = "unqualified"
